@@ -268,6 +268,12 @@ package join
 //@ stoprule (*Discipline).main
 //@ stop roles dsc.breaker.IsBreaked() dsc.opts.Ctx.Done()
 
+// C16: Stop() asks the discipline's own breaker and returns when the goroutine has completed it.
+//@ func (*Discipline).Stop
+//@   requires [*] dsc != nil && dsc.breaker != nil
+//@   modifies gBreakOn, gClock
+//@   ensures [C16] stop-is-requested-on-the-breaker-the-goroutine-watches: gBreakOn == dsc.breaker
+
 // API accessors (run by other goroutines)
 //@ func (*Discipline).Output
 //@   requires [*] dsc != nil
